@@ -13,7 +13,7 @@ func init() {
 		Rule: "even seeds: the C03/C04 distributor profile, per block Mint event == coins minted by the minter module and per sub-distributor sum(Distribution+DistributionBurn amounts) == M-dist inflow minus what stays in main; " +
 			"odd seeds: the vesting profile with owners holding several pools maturing at different times, per accepted withdraw/send one event per pool that paid, amount == that pool's withdrawn delta, sum == coins paid. " +
 			"non-trivial = events of the checked kind were produced; distinct = hash of configuration shape or message kinds, probes and outcome",
-		Quick:    Tier{Runs: 600, BudgetSec: 50},
+		Quick:    Tier{Runs: 1500, BudgetSec: 50},
 		Thorough: Tier{Runs: 40000, BudgetSec: 780},
 		RunSeed: func(seed uint64, tier string) *Outcome {
 			if seed%2 == 0 {
